@@ -81,12 +81,11 @@ def hArg : Handler := handler fun args =>
       match b with
       | .list [bs, off, data] => do pure ((← bs.toNats?), (← off.toNats?), (← data.toInts?))
       | _ => none
-    match bl.mapM (fun (bs, off, data) => argChunk lt bs off total data) with
-    | none => pure (.list [.sym "raised"])
-    | some parts =>
-      let comb := fun ps => (argCombine lt ps).getD (0, 0)
-      pure (ofGrid (fun (p : Int × Nat) => .list [.int p.1, .int p.2])
-        (gridReduce comb comb nb sp false d (mkGrid nb parts)))
+    let parts := bl.map fun (bs, off, data) => (argChunk lt bs off total data).toList
+    match gridReduce (argCombL lt) (argAggL lt) nb sp false d (mkGrid nb parts) with
+    | some [(k, some p)] => pure (.list [.sym "ok", .list [ofKey k, .list [.int p.1, .int p.2]]])
+    | some [(_, none)] => pure (.list [.sym "raised"])
+    | _ => pure (.list [.sym "shape"])
   | _ => none
 
 def scanOp? : SExp → Option ((Int → Int → Int) × Int)
